@@ -245,6 +245,7 @@ def run(chk):
     stiffener_internal(chk)
     from . import stiffk
     stiffk.r13_4(chk)
+    pyrules.check_conn_cache(chk, 'R13.5')
     chk.explanation = ('offset bookkeeping interpreted over a linear layout domain; one reference layout extracted from '
                        'StiffPanelBay.calc_k0 and every other consumer compared with it; PanelAssembly offsets are running sums')
 
